@@ -23,36 +23,51 @@ Ltac dbind H :=
   end.
 
 (** an unapply walk only deactivates the blocks it walks over *)
+Lemma up_succ_r : forall l k a, up l (S k) a = parent l (up l k a).
+Proof. intros l k. induction k as [|k IH]; intros a; [reflexivity|]. change (up l (S (S k)) a) with (up l (S k) (parent l a)). rewrite IH. reflexivity. Qed.
+
 Lemma uw_keep : forall fuel s cur to pred s' w,
     wf s -> unapplyWhile pstate ccmd cunexec fuel s cur to pred = Ok (s', w) ->
     hgt (cores s) w <= hgt (cores s) cur /\
+    (w = to \/ hgt (cores s) to < hgt (cores s) w) /\
+    w = up (cores s) (Z.to_nat (hgt (cores s) cur - hgt (cores s) w)) cur /\
+    (forall k, (k < Z.to_nat (hgt (cores s) cur - hgt (cores s) w))%nat -> up (cores s) k cur <> root _ _ s) /\
     forall j, is_act (cores s) j ->
               (forall k, (k < Z.to_nat (hgt (cores s) cur - hgt (cores s) w))%nat -> up (cores s) k cur <> j) ->
               is_act (cores s') j.
 Proof.
   induction fuel as [|f IH]; intros s cur to pred s' w W H; cbn in H.
-  - destruct (N.eqb cur to) eqn:E; [|discriminate]. inversion H; subst. apply N.eqb_eq in E. subst. split; [lia|auto].
+  - destruct (N.eqb cur to) eqn:E; [|discriminate]. inversion H; subst. apply N.eqb_eq in E. subst.
+    rewrite Z.sub_diag. cbn. split; [lia|]. split; [left; reflexivity|]. split; [reflexivity|]. split; [intros k Hk; lia|auto].
   - destruct (N.eqb cur to) eqn:E.
-    { inversion H; subst. apply N.eqb_eq in E. subst. split; [lia|auto]. }
+    { inversion H; subst. apply N.eqb_eq in E. subst. rewrite Z.sub_diag. cbn.
+      split; [lia|]. split; [left; reflexivity|]. split; [reflexivity|]. split; [intros k Hk; lia|auto]. }
     destruct (find ccmd (blocks pstate ccmd s) cur) as [bc|] eqn:Fc; [|discriminate].
-    destruct (find ccmd (blocks pstate ccmd s) to) as [bt|]; [|discriminate].
-    destruct (Z.leb (b_h ccmd bc) (b_h ccmd bt)); [discriminate|].
+    destruct (find ccmd (blocks pstate ccmd s) to) as [bt|] eqn:Ft; [|discriminate].
+    destruct (Z.leb (b_h ccmd bc) (b_h ccmd bt)) eqn:Hle0; [discriminate|]. apply Z.leb_gt in Hle0.
+    assert (Hhc : hgt (cores s) cur = b_h ccmd bc) by (unfold hgt; rewrite (find_cfind _ _ _ Fc); reflexivity).
+    assert (Hht : hgt (cores s) to = b_h ccmd bt) by (unfold hgt; rewrite (find_cfind _ _ _ Ft); reflexivity).
     destruct (negb (pred bc)).
-    { inversion H; subst. split; [lia|auto]. }
+    { inversion H; subst. rewrite Z.sub_diag. cbn. split; [lia|]. split; [right; lia|]. split; [reflexivity|]. split; [intros k Hk; lia|auto]. }
     dbind H. destruct (unapply_core _ _ _ W E0) as (W1 & C1 & N1 & R1 & T1 & Hr & _).
-    destruct (IH _ _ _ _ _ _ W1 H) as (Hle & K).
+    destruct (IH _ _ _ _ _ _ W1 H) as (Hle & Hto & Hup & Hnr & K).
     assert (S1 : same_static (cores s) (cores a)) by (rewrite C1; apply same_static_cupd).
     pose proof (wf_parent_height _ _ _ W (find_cfind _ _ _ Fc) Hr) as Hh.
     change (e_par (core bc)) with (b_par ccmd bc) in Hh.
-    rewrite !(hgt_static _ _ _ S1) in Hle.
-    split; [lia|]. intros j Hj Hk. apply K.
-    + rewrite C1. apply is_act_cupd_other; [exact Hj|right]. intro Heq. apply (Hk O); [|cbn; congruence].
-      apply Nat2Z.inj_lt. rewrite Z2Nat.id by lia. lia.
-    + intros k Hlt. rewrite !(hgt_static _ _ _ S1) in Hlt. rewrite (up_static _ _ _ _ S1).
-      assert (Hp : parent (cores s) cur = b_par ccmd bc) by (unfold parent; rewrite (find_cfind _ _ _ Fc); reflexivity).
-      rewrite <- Hp. change (up (cores s) k (parent (cores s) cur)) with (up (cores s) (S k) cur). apply Hk.
-      apply Nat2Z.inj_lt. rewrite Z2Nat.id by lia. rewrite Nat2Z.inj_succ.
-      apply Nat2Z.inj_lt in Hlt. rewrite Z2Nat.id in Hlt by lia. lia.
+    assert (Hp : parent (cores s) cur = b_par ccmd bc) by (unfold parent; rewrite (find_cfind _ _ _ Fc); reflexivity).
+    assert (HS : forall j, hgt (cores a) j = hgt (cores s) j) by (intro; apply hgt_static; exact S1).
+    rewrite !HS in Hle, Hto, Hup, Hnr, K. rewrite R1 in Hnr.
+    assert (Hn : Z.to_nat (hgt (cores s) cur - hgt (cores s) w) = S (Z.to_nat (hgt (cores s) (b_par ccmd bc) - hgt (cores s) w))).
+    { rewrite Hh. replace (hgt (cores s) (b_par ccmd bc) + 1 - hgt (cores s) w) with (Z.succ (hgt (cores s) (b_par ccmd bc) - hgt (cores s) w)) by lia.
+      apply Z2Nat.inj_succ. lia. }
+    split; [lia|]. split; [exact Hto|]. split; [|split].
+    + rewrite Hn. cbn [up]. rewrite Hp. rewrite (up_static _ _ _ _ S1) in Hup. exact Hup.
+    + intros k Hk. rewrite Hn in Hk. destruct k as [|k']; [cbn; exact Hr|]. cbn [up]. rewrite Hp.
+      rewrite <- (up_static _ _ _ _ S1). apply Hnr. lia.
+    + intros j Hj Hk. rewrite Hn in Hk. apply K.
+      * rewrite C1. apply is_act_cupd_other; [exact Hj|right]. intro Heq. apply (Hk O); [lia|cbn; congruence].
+      * intros k Hlt. rewrite (up_static _ _ _ _ S1). rewrite <- Hp.
+        change (up (cores s) k (parent (cores s) cur)) with (up (cores s) (S k) cur). apply Hk. lia.
 Qed.
 
 Lemma unapply_keep : forall s a b s',
@@ -63,7 +78,7 @@ Lemma unapply_keep : forall s a b s',
 Proof.
   intros s a b s' W H. unfold unapply in H. dbind H. destruct a0 as [s1 w]. cbn in H.
   destruct (N.eqb w b) eqn:Ew; inversion H; subst. apply N.eqb_eq in Ew. subst.
-  exact (proj2 (uw_keep _ _ _ _ _ _ _ W E)).
+  exact (proj2 (proj2 (proj2 (proj2 (uw_keep _ _ _ _ _ _ _ W E))))).
 Qed.
 
 (** a failing apply_path restores every block that was applied before; a successful one only applies blocks that were
@@ -88,11 +103,12 @@ Proof.
       pose proof (wf_parent_height _ _ _ W He Hxr) as Hh. rewrite Hp in Hh.
       assert (Hninact : ~ is_act (cores s) x).
       { intros (e1 & He1 & Ha1). rewrite He0 in He1. inversion He1; subst. congruence. }
-      assert (Hle1 : hgt (cores s1) from <= hgt (cores s1) x) by (rewrite !(hgt_static _ _ _ S1); lia).
+      assert (HS : forall j, hgt (cores s1) j = hgt (cores s) j) by (intro; apply hgt_static; exact S1).
+      assert (Hle1 : hgt (cores s1) from <= hgt (cores s1) x) by (rewrite !HS; lia).
       destruct (IH _ _ _ _ x W1 (linked_static _ _ _ _ S1 Lr) Hle1 H) as (Kf & Kt). split.
       * intros Hok j Hj Hk. apply (Kf Hok).
         -- rewrite C1. apply is_act_cupd_other; [exact Hj|left; reflexivity].
-        -- intros k Hlt. rewrite !(hgt_static _ _ _ S1) in Hlt. rewrite (up_static _ _ _ _ S1).
+        -- intros k Hlt. rewrite !HS in Hlt. rewrite (up_static _ _ _ _ S1).
            destruct k as [|k'].
            ++ cbn. intro Heq. subst j. exact (Hninact Hj).
            ++ cbn. assert (Hpx : parent (cores s) x = cur) by (unfold parent; rewrite He; exact Hp). rewrite Hpx. apply Hk.
